@@ -45,6 +45,7 @@ type Sched struct {
 	}
 	Grace time.Duration
 	Trace []string
+	only  []string // when set, points outside these prefixes are not yield points of this run
 	free  bool // after Release(): points no longer park
 }
 
@@ -64,6 +65,15 @@ func NewSched() *Sched {
 	s := &Sched{byGoid: map[uint64]int{}, Grace: 15 * time.Millisecond}
 	s.cond = sync.NewCond(&s.mu)
 	verifhook.Install(s.point)
+	return s
+}
+
+// Only restricts the yield points of this run to names with one of the given
+// prefixes: other families' hooks in the same code paths pass straight through.
+func (s *Sched) Only(prefixes ...string) *Sched {
+	s.mu.Lock()
+	s.only = prefixes
+	s.mu.Unlock()
 	return s
 }
 
@@ -109,6 +119,19 @@ func (s *Sched) point(name string) {
 	if s.free {
 		s.mu.Unlock()
 		return
+	}
+	if len(s.only) > 0 {
+		mine := false
+		for _, p := range s.only {
+			if strings.HasPrefix(name, p) {
+				mine = true
+				break
+			}
+		}
+		if !mine {
+			s.mu.Unlock()
+			return
+		}
 	}
 	tid, ok := -1, false
 	for _, bp := range s.byPrefix {
